@@ -5,7 +5,7 @@ PROP = dict(
              monitors=["request_in_scope (every attached request: in_scope on the item's Host/String() and on the request's own URL, defaults appended)",
                        "request_shape_ok (every attached request: http/https, host not localhost/127.0.0.1, host has a dot)",
                        "request_iff_preprocessed (a request is attached exactly to the PreProcessed nodes)",
-                       "rejected_seed_no_request (a seed that preprocess turned Failed/Completed leaves no request in its tree)"]),
+                       "rejected_seed_no_request (a seed at the working depth that is out of scope by the implementation's own strings ends Failed/Completed, childless, without request)"]),
     ],
     partial="The URL parsers (net/url, ada, x/net/idna), Go's regexp and http.NewRequest are oracles: per node the model receives ada's protocol/hostname and "
             "the Host / String() / regex answers the code reads, and decides from them; the normaliser itself is C09. The lift to every fetch event of the "
